@@ -201,6 +201,63 @@ fn run_off(e: &'static Engine, p: &'static Prog, poll_ns: u64, off: usize) {
     e.note(&out);
 }
 
+/// second generation: a first coroutine ends abnormally (cancelled while parked / panics / its timed park times out) and
+/// is joined; its pooled stack (pool capacity 1) goes to a second coroutine whose closure blocks on a contended Mutex and
+/// then on a Semphore - calls that turn a Canceled / Timeout result of their park into a panic or an error. The second
+/// coroutine was never cancelled: it must run to its end and join() must return its value.
+fn second_generation(e: &'static Engine, workers: usize, first: u8) {
+    use may::sync::{Mutex, Semphore};
+    rt_init_opts(workers, 1, 0x4000, 3_600_000_000_000);
+    let m = Arc::new(Mutex::new(0u32));
+    let sem = Arc::new(Semphore::new(0));
+    e.begin();
+    let f = go!(move || match first {
+        0 => loop {
+            coroutine::park();
+        },
+        1 => std::panic::panic_any(4200u32),
+        _ => coroutine::park_timeout(Duration::from_millis(1)),
+    });
+    if first == 0 {
+        e.quiesce();
+        unsafe { f.coroutine().cancel() };
+    }
+    let _ = f.join();
+    e.quiesce();
+    let g = m.lock().unwrap();
+    let (m2, s2) = (m.clone(), sem.clone());
+    let h = go!(move || {
+        RUNS[0].fetch_add(1, Ordering::SeqCst);
+        {
+            let mut g = m2.lock().unwrap();
+            *g += 1;
+        }
+        s2.wait();
+        DONE[0].store(true, Ordering::SeqCst);
+        200u32
+    });
+    // the second coroutine is parked in lock()
+    e.quiesce();
+    drop(g);
+    // ... and now in wait()
+    e.quiesce();
+    sem.post();
+    match h.join() {
+        Ok(200) if DONE[0].load(Ordering::SeqCst) => {}
+        Ok(v) => e.fail("join_value", &format!("join() returned Ok({})", v)),
+        Err(pl) => {
+            if pl.downcast_ref::<generator::Error>().is_some() {
+                e.fail("cancel_unasked", "the second coroutine reports Cancel but was never cancelled");
+            }
+            e.fail("join_value", &format!("the second coroutine did not run to its end: {:?}", e.panics().last()));
+        }
+    }
+    if RUNS[0].load(Ordering::SeqCst) != 1 {
+        e.fail("runs_exactly_once", "the closure of the second coroutine did not run exactly once");
+    }
+    e.note("ok");
+}
+
 use Act::*;
 use MainAct::*;
 use Site::*;
@@ -239,6 +296,12 @@ pub fn build(quick: bool) -> Vec<Scenario> {
         let d = if quick { 2 } else if three { 2 } else { 3 };
         let s = Scenario::new("C01", "spawn_join", p.name, Arc::new(move |e| run(e, p, 3_600_000_000_000))).bound(d);
         v.push(if quick { s.deepen(4, 2500) } else if d == 3 { s.shards(4).deepen(4, 40_000) } else { s.deepen(3, 150_000) });
+    }
+    for w in [1usize, 2] {
+        for (first, name) in [(0u8, "cancelled"), (1, "panicked"), (2, "timed_out")] {
+            let s = Scenario::new("C01", "second_generation", format!("second_generation.after_{}.w{}", name, w), Arc::new(move |e| second_generation(e, w, first))).tier(quick);
+            v.push(if first == 2 { s.t2() } else { s });
+        }
     }
     // run queues positioned at their block boundaries (global mpsc: 64 slots, local spmc: 32 slots; the warm-up
     // coroutine of rt_init is the first entry)
